@@ -104,6 +104,11 @@ func TypeIsObject(d Datum) (bool, string) {
 // error.
 func numberFromString(numStr string) float64 {
 	num, err := strconv.ParseFloat(strings.TrimSpace(numStr), 0)
+	if ne, ok := err.(*strconv.NumError); ok && ne.Err == strconv.ErrRange {
+		// too large for a double: the nearest double is +/-infinity,
+		// which is what ParseFloat returns with this error
+		return num
+	}
 	if err != nil {
 		return math.NaN()
 	}
